@@ -85,11 +85,11 @@ theorem rt_roundtrip (e : Expr) (h : RT e) : parseAll (printE e) = some e := by
   cases h with
   | ident n hn =>
     obtain ⟨h1, h2, h3, h4⟩ := hn
-    simp [printE, printExpr, mergeAmp, parseAll, parseExpr, nud, loop, exprLbp, h1, h2, h3, h4]
-  | int l => simp [printE, printExpr, mergeAmp, parseAll, parseExpr, nud, loop, exprLbp]
-  | fix l => simp [printE, printExpr, mergeAmp, parseAll, parseExpr, nud, loop, exprLbp]
-  | bool b => cases b <;> simp [printE, printExpr, mergeAmp, parseAll, parseExpr, nud, loop, exprLbp]
-  | nil => simp [printE, printExpr, mergeAmp, parseAll, parseExpr, nud, loop, exprLbp]
-  | void => simp [printE, printExpr, mergeAmp, parseAll, parseExpr, nud, loop, exprLbp, sym]
+    simp [printE, printExpr, mergeAmp, parseAll, parseExpr, nud, nudBody, loop, exprLbp, expect, h1, h2, h3, h4]
+  | int l => simp [printE, printExpr, mergeAmp, parseAll, parseExpr, nud, nudBody, loop, exprLbp, expect]
+  | fix l => simp [printE, printExpr, mergeAmp, parseAll, parseExpr, nud, nudBody, loop, exprLbp, expect]
+  | bool b => cases b <;> simp [printE, printExpr, mergeAmp, parseAll, parseExpr, nud, nudBody, loop, exprLbp, expect]
+  | nil => simp [printE, printExpr, mergeAmp, parseAll, parseExpr, nud, nudBody, loop, exprLbp, expect]
+  | void => decide
 
 end Verif.Proofs.Pratt
